@@ -478,3 +478,14 @@ Proof.
     end).
 Qed.
 Print Assumptions C01_tokenizer_end_to_end_machine.
+
+(* the partition is reported for the text it was computed for: results of a reused tokenizer belong to their own text
+   (C08_session_delivers_own_paths, Model/TokResult.v) under the shapes of reset / resolve_best_path / swap_result read on
+   this run; and the size the 65535-byte guard compares is a byte length (C08_reported_size_is_byte_length) *)
+From SudachiVerif Require Model.TokResult.
+Fact C01_fact_result_handover : TokResult.rcfg_ok TokResult.the_rcfg = true.
+Proof. vm_compute. reflexivity. Qed.
+Fact C01_fact_sizes_in_bytes :
+  SudachiVerif.Generated.BufferFacts.resolve_arm_units = [("Str", "bytes"); ("Ref", "bytes"); ("Char", "bytes")]%string /\
+  SudachiVerif.Generated.BufferFacts.commit_size_source = "returned_by_resolve_edits"%string.
+Proof. vm_compute. split; reflexivity. Qed.
